@@ -9,7 +9,7 @@ RULE = ("seeded designs x scripted RNG (random / always-lo / always-hi / alterna
         "IterateGen/UniformGen where they delegate to it; every returned sequence checked against the reference semantics; "
         "non-trivial = >=1 sequence returned after >=1 scripted draw; distinct = (design skeleton, rng script mode, strategy)")
 ASSUMPTIONS = ["reference semantics (sim/refsem.py) reads the documentation correctly"]
-BUDGET = {"quick": 40, "thorough": 900}
+BUDGET = {"quick": 300, "thorough": 900}
 RUNS = {"quick": 4000, "thorough": 600000}
 
 
